@@ -1,6 +1,6 @@
 SPECIFICATION Spec
 CONSTANTS MaxOps = 3 MaxSnaps = 2 MaxCrashes = 1 SnapEvery = 1 KeepSnap = 3 KeepCkpt = 1 ChanCap = 2 MaxTimeouts = 1
-  Role = "follower" Persistent = TRUE SafePublish = TRUE Install = TRUE AtomicRestore = TRUE InstLatestAfterSave = FALSE Mutant = ""
+  Role = "follower" Persistent = TRUE SafePublish = TRUE Install = TRUE AtomicRestore = TRUE InstLatestAfterSave = FALSE PurgePromptly = TRUE Mutant = ""
 VIEW View
 CHECK_DEADLOCK FALSE
 INVARIANT Recoverable
